@@ -4,6 +4,7 @@ import (
 	"fmt"
 	"math/big"
 	"reflect"
+	"sort"
 	"strings"
 	"sync"
 
@@ -659,6 +660,12 @@ func c03test(used map[string]bool, mu *sync.Mutex) func(vs []gen.Variant) (strin
 		if m4 != nil && irwalk.Digest(m3) != irwalk.Digest(m4) {
 			return "reparse-structure-differs", "re-parsed constructed module is not structurally identical", "", got
 		}
+		// every STRING the constructed module holds (names, sections, partitions, asm, attribute
+		// strings, debug-info strings: every exported string field, by reflection) must come back
+		// from the text: the comparison above goes through the same printer on both sides.
+		if a, b := c03strings(m2), c03strings(m3); a != b {
+			return "reparse-strings-differ", "the strings held by the constructed module differ from those of the module re-parsed from its text", firstDiff(a, b), got
+		}
 		// the same construction program over types built the way API users build them: predeclared
 		// leaves (types.I8, ...) and types.New* constructors.
 		if m5, e5, p5 := parseTry(x); e5 == "" && p5 == "" {
@@ -678,6 +685,23 @@ func c03test(used map[string]bool, mu *sync.Mutex) func(vs []gen.Variant) (strin
 		}
 		return "", "", "", ""
 	}
+}
+
+// c03strings lists "slot=value" for every string slot of the object graph, sorted.
+func c03strings(m *ir.Module) string {
+	// (a SET: the construction program shares metadata with the module it was derived from, so
+	// some objects are reachable twice)
+	var out []string
+	seen := map[string]bool{}
+	for _, sl := range c11walkSlots(m) {
+		l := fmt.Sprintf("%s=%q", sl.key, sl.v.String())
+		if !seen[l] {
+			seen[l] = true
+			out = append(out, l)
+		}
+	}
+	sort.Strings(out)
+	return strings.Join(out, "\n")
 }
 
 // ---- part B: execution oracle -------------------------------------------------------------------
